@@ -344,6 +344,9 @@ func init() {
 				if index {
 					w, grid = 20, 50 // every run below the limit allocates up to a million cells
 				}
+				if strings.Contains(f.name, "recursion") {
+					w, grid = 32, 40 // a run near the limit costs ~0.2 s (frame lookup is linear in the depth)
+				}
 				for n := t - w; n <= t+w; n++ {
 					set[n] = true
 				}
